@@ -169,7 +169,7 @@ Lemma register_cases : forall cfg d callee req opts proc,
     let d' := fst (fst (register cfg d callee req opts proc)) in
     d' = d \/
     (exists r, reg_lookup d (opt_string opts "match") proc = Some r /\
-               share_ok r (opt_string opts "invoke") (s_id callee) = true /\ d' = share_state d r (s_id callee) (opt_bool opts "disclose_caller")) \/
+               share_ok r (opt_string opts "invoke") (s_id callee) = true /\ d' = share_state d r (s_id callee) (opt_bool opts "disclose_caller") (opt_bool opts "forward_timeout")) \/
     (reg_lookup d (opt_string opts "match") proc = None /\ d' = new_state d opts proc (s_id callee)).
 Proof.
   intros cfg d callee req opts proc d'. subst d'.
@@ -187,15 +187,15 @@ Proof.
   - rewrite (register_new _ _ _ _ _ _ Hpre Hl). cbn [fst]. auto.
 Qed.
 
-Lemma share_state_wf : forall lookup d r sid disc,
+Lemma share_state_wf : forall lookup d r sid disc fwd,
     regs_core d -> (forall s, cr_ok d s) -> regs_att lookup d -> attached lookup sid ->
     nget (d_regs d) (reg_id r) = Some r -> shared_policy (reg_policy r) = true -> ~ In sid (reg_callees r) ->
-    regs_core (share_state d r sid disc) /\ (forall s, cr_ok (share_state d r sid disc) s) /\
-    regs_att lookup (share_state d r sid disc).
+    regs_core (share_state d r sid disc fwd) /\ (forall s, cr_ok (share_state d r sid disc fwd) s) /\
+    regs_att lookup (share_state d r sid disc fwd).
 Proof.
-  intros lookup d r sid disc W CR AT Hsid Hr Hsp Hni.
+  intros lookup d r sid disc fwd W CR AT Hsid Hr Hsp Hni.
   destruct (rw_callees _ W _ _ Hr) as (C1 & C2 & C3).
-  assert (W1 : regs_core (d_set_regs d (nset (d_regs d) (reg_id r) (reg_add_callee r sid disc)))).
+  assert (W1 : regs_core (d_set_regs d (nset (d_regs d) (reg_id r) (reg_add_callee r sid disc fwd)))).
   { eapply regs_core_replace; eauto; cbn [reg_add_callee reg_callees reg_policy];
       first [ solve [destruct (reg_callees r); discriminate]
             | solve [apply NoDup_app_single; assumption]
@@ -208,10 +208,10 @@ Proof.
     rewrite CR. rewrite nget_nset. split.
     + intros [(r0 & Hr0 & Hin)|[-> ->]].
       * neq.
-        -- exists (reg_add_callee r sid disc). split; [reflexivity|]. assert (r0 = r) by congruence. subst.
+        -- exists (reg_add_callee r sid disc fwd). split; [reflexivity|]. assert (r0 = r) by congruence. subst.
            cbn [reg_add_callee reg_callees]. apply in_or_app. auto.
         -- eauto.
-      * rewrite N.eqb_refl. exists (reg_add_callee r sid disc). split; [reflexivity|].
+      * rewrite N.eqb_refl. exists (reg_add_callee r sid disc fwd). split; [reflexivity|].
         cbn [reg_add_callee reg_callees]. apply in_or_app. cbn. auto.
     + intros (r0 & Hr0 & Hin). neq.
       * inversion Hr0; subst r0. cbn [reg_add_callee reg_callees] in Hin. apply in_app_or in Hin.
@@ -438,7 +438,7 @@ Proof.
   - (* the callee is removed, the registration stays *)
     rewrite Hc in H. inversion H; subst d' res. clear H Hc. rewrite <- Hrm in *.
     set (r' := mkReg (reg_id r) (reg_proc r) (reg_match r) (reg_policy r) (nremove1 sid (reg_disclose r))
-                     (reg_fwd_timeout r) (reg_next r) (nremove1 sid (reg_callees r))).
+                     (nremove1 sid (reg_fwd_timeout r)) (reg_next r) (nremove1 sid (reg_callees r))).
     split.
     + eapply regs_core_replace with (r := r) (r' := r'); eauto; cbn [r' reg_callees reg_policy].
       * rewrite Hrm. discriminate.
